@@ -4,13 +4,15 @@ When a maximal simplex (toplex) is erased inside a loop over the toplexes and si
 iteration, the re-inserted simplices must be computed from the erased toplex: the faces of the toplex that survive
 the operation are a function of that toplex. An insertion whose argument does not depend on the loop's toplex
 re-creates something else and silently drops the other faces."""
+import re
+
 from gsa import facts, ir, paths
 from gsa.facts import Unit, rel, AnalysisBroken
 from gsa.report import Check
 
 UNITS = [Unit('misc', 'misc_pat.cpp', ['src/Toplex_map/'], no_inst=True)]
 ERASERS = ('erase_maximal', 'erase_max')
-INSERTERS = ('insert_simplex', 'insert_independent_simplex', 'insert_max_simplex')
+INSERTERS = ('insert_simplex', 'insert_independent_simplex', 'insert_max_simplex', 'store_simplex')
 
 
 def refs(e):
@@ -360,6 +362,215 @@ def run_label_sentinel(chk, F):
             'empty query' % ir.show(x)[:70], key='E4|%s::%s|label-sentinel' % (f.get('clsname') or '-', f['name']))
 
 
+def run_no_cleaning_in_snapshot(chk, F):
+    """E2-snapshot-stable: a loop of the lazy map that walks a *snapshot* of the simplices stored under a vertex
+    (`for (sptr : Simplex_ptr_set(t0.at(v)))`) erases and re-inserts simplices itself; a cleaning started from inside
+    the loop erases simplices the snapshot still lists (erase_max then looks a vanished vertex up: out_of_range), and
+    `clean` re-entered from itself need not terminate. No call in the body of such a loop reaches `clean` through the
+    call graph of the class."""
+    fns = {}
+    for f in F.functions:
+        if f.get('clsname') == 'Lazy_toplex_map' and f['inst'] in (0, 2) and f.get('body') is not None:
+            fns.setdefault(f['name'], []).append(f)
+    if 'clean' not in fns:
+        raise AnalysisBroken('C16: Lazy_toplex_map::clean not found')
+    graph = {n: {ir.call_name(x) for f in fl for x in ir.walk(f['body']) if ir.is_call(x) and
+                 ir.call_name(x) in fns and (ir.is_this_call(x) or ir.call_receiver(x) is None)}
+             for n, fl in fns.items()}
+
+    def reaches_clean(name, seen=None):
+        seen = seen if seen is not None else set()
+        if name == 'clean':
+            return ['clean']
+        if name in seen:
+            return None
+        seen.add(name)
+        for m in sorted(graph.get(name, ())):
+            r = reaches_clean(m, seen)
+            if r:
+                return [name] + r
+        return None
+    n = 0
+    for name, fl in fns.items():
+        for f in fl:
+            for lp in ir.walk(f['body']):
+                if lp.get('k') != 'CXXForRangeStmt':
+                    continue
+                rt = ir.show(lp.get('range'))
+                rn = lp.get('range') or {}
+                snapshot = rn.get('k') in ('CXXFunctionalCastExpr', 'CXXConstructExpr', 'CXXTemporaryObjectExpr') and \
+                    'Simplex_ptr_set' in (rn.get('t') or '')
+                if not snapshot or 't0.at(' not in rt:
+                    continue
+                n += 1
+                bad = None
+                for x in ir.walk(lp.get('body')):
+                    if ir.is_call(x) and ir.call_name(x) in fns and (ir.is_this_call(x) or ir.call_receiver(x) is None):
+                        r = reaches_clean(ir.call_name(x))
+                        if r:
+                            bad = (x, r)
+                            break
+                chk.ob('E2-snapshot-stable', 'Lazy_toplex_map::%s: the loop over the snapshot %s starts no cleaning'
+                       % (name, rt[:40]), '%s:%s' % (rel(f['file']), lp.get('l')), bad is None,
+                       '' if bad is None else 'line %s: %s - a cleaning can erase simplices the snapshot still lists '
+                       '(and clean() re-entered from its own loop need not end)' % (
+                           bad[0].get('l'), ' -> '.join(bad[1])), key='E2|Lazy_toplex_map::%s|snapshot-stable' % name)
+    cyc = None
+    for m in sorted(graph.get('clean', ())):
+        r = reaches_clean(m)
+        if r:
+            cyc = ['clean'] + r
+            break
+    chk.ob('E2-snapshot-stable', 'Lazy_toplex_map::clean is not re-entered from itself', '%s:%d' % (
+        rel(fns['clean'][0]['file']), fns['clean'][0]['line']), cyc is None,
+        '' if cyc is None else '%s: the recursion ends only if a cleaning lowers `size` or raises `size_lbound`, which '
+        'a cleaning of an already clean vertex does not' % ' -> '.join(cyc), key='E2|Lazy_toplex_map::clean|re-entered')
+    chk.expect_count('E2-snapshot-stable', 'loops over a snapshot of t0', n, 3)
+
+
+def run_lower_bounds(chk, F):
+    """E3-bound-no-wrap: size_lbound and the values of gamma0_lbounds are unsigned lower bounds: every decrement of or
+    subtraction from one of them is guarded by a test that it is large enough (`> 0`, or a comparison with what is
+    taken off); and a function that erases a stored simplex lowers them (an over-count makes the next subtraction
+    wrap: the cleaning threshold becomes 0 or 2^64)."""
+    n = 0
+    for f in F.functions:
+        if f.get('clsname') != 'Lazy_toplex_map' or f['inst'] not in (0, 2) or f.get('body') is None:
+            continue
+        bound_locals = {x['n'] for x in ir.walk(f['body']) if x.get('k') == 'VarDecl' and x.get('init') is not None and
+                        'gamma0_lbounds.find(' in ir.show(x['init'])}
+
+        def is_bound(e):
+            t = ir.show(ir.skipcasts(e)).replace('this->', '')
+            return t == 'size_lbound' or t.startswith('gamma0_lbounds[') or t.startswith('gamma0_lbounds.at(') or \
+                any(t in (b + '->second', '(*%s).second' % b) for b in bound_locals)
+        par = ir.parents(f['body'])
+        for x in ir.walk(f['body']):
+            tgt = None
+            if x.get('k') == 'UnaryOperator' and x.get('op') in ('--', 'post--', 'pre--', 'postdec', 'predec') and \
+                    is_bound(x['c'][0]):
+                tgt = x['c'][0]
+            elif x.get('k') == 'BinaryOperator' and x.get('op') in ('-', '-=') and is_bound(x['c'][0]):
+                tgt = x['c'][0]
+            if tgt is None:
+                continue
+            n += 1
+            tt = ir.show(ir.skipcasts(tgt)).replace('this->', '')
+            ok = False
+            cur = x
+            while id(cur) in par and not ok:
+                up = par[id(cur)]
+                if up.get('k') == 'IfStmt' and (cur is up.get('then') or ir.contains(up.get('then'), lambda y: y is x)):
+                    ct = ir.show(up.get('cond')).replace('this->', '')
+                    if re.search(re.escape(tt) + r'\s*(>|>=|!=)', ct):
+                        ok = True
+                if up.get('k') == 'ConditionalOperator' and re.search(re.escape(tt) + r'\s*(>|>=)', ir.show(up['c'][0])):
+                    ok = True
+                cur = up
+            chk.ob('E3-bound-no-wrap', 'Lazy_toplex_map::%s: `%s` is decreased only when it is large enough' % (
+                f['name'], tt), '%s:%s' % (rel(f['file']), x.get('l')), ok,
+                '' if ok else '`%s`: an unsigned lower bound is decreased without a test: it wraps to 2^64 when the '
+                'bound was an over-count' % ir.show(x)[:60], key='E3|Lazy_toplex_map::%s|bound-no-wrap' % f['name'])
+    chk.count('decrements of the lower bounds', n)   # (no floor: the clause on erase_max below needs them)
+    fs = [f for f in F.functions if f.get('clsname') == 'Lazy_toplex_map' and f['name'] == 'erase_max' and
+          f['inst'] in (0, 2) and f.get('body') is not None]
+    if len(fs) != 1:
+        raise AnalysisBroken('C16: Lazy_toplex_map::erase_max not found')
+    t = ' '.join(ir.show(x) for x in ir.walk(fs[0]['body']) if x.get('k') == 'UnaryOperator')
+    ok = 'size_lbound' in t and '->second' in t and 'gamma0_lbounds' in ' '.join(
+        ir.show(x) for x in ir.walk(fs[0]['body']) if x.get('k') == 'VarDecl')
+    chk.ob('E3-bound-no-wrap', 'Lazy_toplex_map::erase_max lowers size_lbound and the bounds of the vertices of the '
+           'erased simplex', '%s:%d' % (rel(fs[0]['file']), fs[0]['line']), ok,
+           '' if ok else 'a stored simplex is erased and the lower bounds keep counting it: they drift above the real '
+           'numbers and the next cleaning subtracts more than there is', key='E3|Lazy_toplex_map::erase_max|bounds-follow')
+
+
+AT_EXEMPT = {'Lazy_toplex_map::clean': 'private; its callers pass the top of the cleaning queue or the result of '
+                                        'best_index, both vertices of t0 (E2-handle-lockstep keeps the queue on the keys '
+                                        'of t0)'}
+
+
+def run_vertex_lookups(chk, F):
+    """E12-vertex-known: `t0.at(x)` throws for a vertex that is not in the complex. Where x is a vertex *parameter*
+    (given by the caller, who may name any label) every path to the lookup has decided `t0.count(x)` (or
+    `t0.find(x) != t0.end()`): for an absent vertex the operation is the identity of the abstract complex."""
+    n = 0
+    for f in F.functions:
+        if f.get('clsname') not in ('Toplex_map', 'Lazy_toplex_map') or f['inst'] not in (0, 2) or f.get('body') is None:
+            continue
+        vps = {q['n'] for q in f.get('params', []) if (q.get('t') or '').replace('const ', '').strip().endswith('Vertex')}
+        if not vps:
+            continue
+        who = '%s::%s' % (f['clsname'], f['name'])
+
+        def cl(x, vps=vps):
+            if ir.is_call(x) and ir.call_name(x) == 'at' and ir.call_receiver(x) is not None and \
+                    ir.show(ir.call_receiver(x)).replace('this->', '') == 't0':
+                a = ir.call_args(x)
+                if a and ir.show(ir.skipcasts(a[0])) in vps:
+                    return ['AT']
+            return []
+        if not ir.contains(f['body'], lambda y: 'AT' in cl(y)):
+            continue
+        n += 1
+        if who in AT_EXEMPT:
+            chk.ob('E12-vertex-known', '%s looks its vertex parameter up without a test (%s)' % (who, AT_EXEMPT[who]),
+                   '%s:%d' % (rel(f['file']), f['line']), True, '', key='E12|%s|vertex-known' % who, nontrivial=False)
+            continue
+        ps = paths.enumerate_paths(f, cl, loop_mode='01', keep_conds=True, cap=40000)
+        bad = None
+        for p in ps:
+            known = set()
+            for tag, node in p.events:
+                if tag == '?':
+                    c, pol = node[0], node[1]
+                    if isinstance(c, tuple):
+                        continue
+                    t = ir.show(c).replace('this->', '').replace(' ', '')
+                    for v in vps:
+                        if (t in ('t0.count(%s)' % v, '(t0.count(%s))' % v) and pol) or \
+                                (t in ('!t0.count(%s)' % v, '(!t0.count(%s))' % v) and not pol) or \
+                                (('t0.find(%s)!=t0.end()' % v) in t and pol) or \
+                                (('t0.find(%s)==t0.end()' % v) in t and not pol):
+                            known.add(v)
+                elif tag == 'AT':
+                    v = ir.show(ir.skipcasts(ir.call_args(node)[0]))
+                    if v not in known and bad is None:
+                        bad = (node, v)
+        chk.ob('E12-vertex-known', '%s looks a vertex parameter up in t0 only after testing that it is a vertex of the '
+               'complex' % who, '%s:%d' % (rel(f['file']), f['line']), bad is None,
+               '' if bad is None else 'line %s: `t0.at(%s)` on a path that never tested t0.count(%s): out_of_range for a '
+               'label that is not in the complex' % (bad[0].get('l'), bad[1], bad[1]), key='E12|%s|vertex-known' % who)
+    chk.expect_count('E12-vertex-known', 'functions looking a vertex parameter up', n, 4)
+
+
+def run_heap_not_copied(chk, F):
+    """E1d-heap-rebuilt: the copy constructor of boost::heap::fibonacci_heap leaves the `mark` of the cloned nodes
+    uninitialised (read by the next update): the copy constructor of the lazy map fills its queue again instead of
+    copying the one of the source."""
+    fs = [f for f in F.functions if f.get('clsname') == 'Lazy_toplex_map' and f.get('kind') == 'copy_ctor' and
+          f.get('body') is not None]
+    if len(fs) != 1:
+        raise AnalysisBroken('C16: copy constructor of Lazy_toplex_map not found')
+    f = fs[0]
+    src = f['params'][0]['n']
+    bad = None
+    for ini in f.get('inits', []) or []:
+        if isinstance(ini, dict) and ini.get('member') == 'cleaning_priority' and ini.get('written') and \
+                ini.get('init') is not None and ('%s.cleaning_priority' % src) in ir.show(ini['init']):
+            bad = 'member initialiser cleaning_priority(%s.cleaning_priority)' % src
+    for x in ir.walk(f['body']):
+        if x.get('k') in ('BinaryOperator', 'CXXOperatorCallExpr') and x.get('op') == '=' and \
+                ir.show(x).replace(' ', '').strip('()').startswith('cleaning_priority=%s.' % src):
+            bad = 'assignment from %s.cleaning_priority' % src
+    pushes = ir.contains(f['body'], lambda y: ir.is_call(y) and ir.call_name(y) in ('push', 'emplace') and
+                         ir.call_receiver(y) is not None and ir.show(ir.call_receiver(y)) == 'cleaning_priority')
+    ok = bad is None and pushes
+    chk.ob('E1d-heap-rebuilt', 'Lazy_toplex_map: the copy constructor fills its priority queue by pushing',
+           '%s:%d' % (rel(f['file']), f['line']), ok, '' if ok else (bad or 'no push into cleaning_priority') +
+           ': the copied fibonacci_heap has nodes whose mark is uninitialised', key='E1d|Lazy_toplex_map|heap-rebuilt')
+
+
 def run(tier, replay=None):
     chk = Check('C16', tier,
                 'Static decision of one information-flow clause of the toplex maps: in every loop over maximal '
@@ -421,6 +632,10 @@ def run(tier, replay=None):
     run_label_sentinel(chk, F)
     run_handle_lockstep(chk, F)
     run_handle_copy(chk, F)
+    run_no_cleaning_in_snapshot(chk, F)
+    run_lower_bounds(chk, F)
+    run_vertex_lookups(chk, F)
+    run_heap_not_copied(chk, F)
     chk.count('erase-and-reinsert loops', n_loops)
     chk.expect_count('E10-provenance', 'erase-and-reinsert loops', n_loops, 6)
     chk.assumptions += ['clang 14 parser', 'dependence is syntactic def-use over the loop body (sound over-approximation '
